@@ -91,7 +91,7 @@ def warmup():
 
 
 class Entry:
-    __slots__ = ('spec', 'obs', 'tree', 'leaves', 'route', 'sentinels', 'born_changed')
+    __slots__ = ('spec', 'obs', 'tree', 'leaves', 'route', 'sentinels', 'born_changed', 'entry_type_refs')
 
     def __init__(self, spec, tree, leaves, route):
         self.spec = spec
@@ -104,6 +104,30 @@ class Entry:
         first = observe(spec, [U.Leaf(15000 + i) for i in range(spec.num_leaves)])
         self.born_changed = first['changed-by-unflatten']
         self.obs = observe(spec, self.sentinels)
+        # path entry classes that only their registration keeps alive: a live treespec must keep them alive too
+        self.entry_type_refs = []
+        try:
+            for t in {type(en) for acc in spec.accessors() for en in acc}:
+                if t.__name__.startswith('FreshEntry'):
+                    self.entry_type_refs.append((t.__name__, weakref.ref(t)))
+            t = None
+        except Exception:  # noqa: BLE001
+            pass
+
+
+_FRESH_N = [0]
+
+
+def fresh_entry_type(tape):
+    """None (default entry type), the module-level hook entry type, or a path entry class created for this one registration and
+    referenced by NOTHING but the registration (and, through the registration record, by the treespecs made with it)."""
+    k = tape.draw(4, 'entry-type')
+    if k < 2:
+        return None
+    if k == 2:
+        return U.HookEntry
+    _FRESH_N[0] += 1
+    return type('FreshEntry%d' % _FRESH_N[0], (U.HookEntry,), {'__slots__': ()})
 
 
 def built_by(tree):
@@ -160,7 +184,7 @@ def _run_body(job, io, tape):
     n_custom = 1 + tape.draw(4, 'n-custom')
     kept_lists = []  # children / entries lists that custom flatten functions handed to the engine
     for cls in U.CUSTOM_CLASSES[:n_custom]:
-        f0 = reg.register(cls, ns, style=tape.draw(4, 'style'))
+        f0 = reg.register(cls, ns, style=tape.draw(4, 'style'), path_entry_type=fresh_entry_type(tape))
         f0.keep = kept_lists
         f0.keep_entries = kept_lists
     ctx = gen.swarm_ctx(tape, custom_classes=U.CUSTOM_CLASSES[:n_custom])
@@ -182,6 +206,12 @@ def _run_body(job, io, tape):
             if d:
                 viol('spec-changed', site, 'treespec made via %s changed: %s' % (e.route, d))
                 e.obs = now
+            for tname, ref in e.entry_type_refs:
+                if ref() is None:
+                    viol('payload-freed', site, 'the path entry class %s of a LIVE treespec (made via %s) was freed: the registration record the treespec shares '
+                         'no longer owns it' % (tname, e.route))
+                    e.entry_type_refs = []
+                    break
 
     def new_tree():
         nil = bool(tape.draw(2, 'nil'))
@@ -565,7 +595,7 @@ def _run_body(job, io, tape):
                     elif how == 'reregister_other':
                         optree.unregister_pytree_node(cls, namespace=rns)
                         reg.live.remove((cls, rns, f))
-                        reg.register(cls, rns, style=tape.draw(4, 'style2'))
+                        reg.register(cls, rns, style=tape.draw(4, 'style2'), path_entry_type=fresh_entry_type(tape))
                     else:
                         try:
                             reg.register(cls, GLOBAL, style=tape.draw(4, 'style3'))
@@ -573,7 +603,7 @@ def _run_body(job, io, tape):
                             outcome = 'dup'
                 else:
                     cls = U.CUSTOM_CLASSES[tape.draw(n_custom, 'rcls2')]
-                    reg.register(cls, ns, style=tape.draw(4, 'style4'))
+                    reg.register(cls, ns, style=tape.draw(4, 'style4'), path_entry_type=fresh_entry_type(tape))
             elif kind == 'drop_tree':
                 e = pick()
                 site = 'drop_tree'
